@@ -39,6 +39,9 @@ def sites_c04(inf, levels=None, coords=False):
         for fn, bl in L["files"].items():
             last = L["boxes"][bl[-1]]
             out.append({"op": "delete_file", "lv": lv, "file": fn})
+            # the name is still there, but it is a directory (what a half-finished restore / sync leaves)
+            out.append({"op": "file_to_dir", "lv": lv, "file": fn, "how": "empty"})
+            out.append({"op": "file_to_dir", "lv": lv, "file": fn, "how": "holding_the_file"})
             for how in ("1", "8", "half", "allbut1", "all", "lastfab", "intolasthdr"):
                 out.append({"op": "truncate", "lv": lv, "file": fn, "how": how})
             for how in ("1", "8", "100", "fab"):
@@ -71,7 +74,7 @@ def sites_c04(inf, levels=None, coords=False):
             out.append({"op": "idx_groups", "lv": lv, "box": bi, "how": "drop_type"})
             out.append({"op": "idx_groups", "lv": lv, "box": bi, "how": "stray_token"})
             out.append({"op": "fod_delete", "lv": lv, "box": bi})
-            for how in ("garble", "nofile", "otherfile", "beyond", "payload", "negative", "otherbox", "empty"):
+            for how in ("garble", "nofile", "subdir", "otherfile", "beyond", "payload", "negative", "otherbox", "empty"):
                 out.append({"op": "fod", "lv": lv, "box": bi, "how": how})
             out.append({"op": "box_delete_consistent", "lv": lv, "box": bi})
             if coords:
@@ -183,6 +186,15 @@ def apply(path, inf, mut):
     cp = os.path.join(ldir, "Cell_H")
     if op == "delete_file":
         os.remove(os.path.join(ldir, mut["file"])); return
+    if op == "file_to_dir":
+        fp = os.path.join(ldir, mut["file"])
+        os.rename(fp, fp + ".moved")
+        os.mkdir(fp)
+        if mut["how"] == "holding_the_file":
+            os.rename(fp + ".moved", os.path.join(fp, mut["file"]))
+        else:
+            os.remove(fp + ".moved")
+        return
     if op in ("truncate", "extend"):
         fp = os.path.join(ldir, mut["file"])
         size = os.path.getsize(fp)
@@ -309,6 +321,9 @@ def apply(path, inf, mut):
             C[fl] = b"FabOnDisk: %s" % b["file"].encode()
         elif how == "nofile":
             C[fl] = b"FabOnDisk: Cell_D_99999 %d" % b["off"]
+        elif how == "subdir":       # names an existing subdirectory of the level directory
+            os.makedirs(os.path.join(ldir, "backup"), exist_ok=True)
+            C[fl] = b"FabOnDisk: backup %d" % b["off"]
         elif how == "otherfile":
             if not otherfiles:
                 return "n/a"
